@@ -1143,6 +1143,12 @@ func (ds *AnySource) ArchiveDataBlock(N int, file *os.File, finalName string) er
 	if ds.archiveBlock.active {
 		return fmt.Errorf("cannot start archive block, because one is already being acquired")
 	}
+	// The whole block is buffered in memory (2 bytes per sample and channel): refuse absurd requests
+	// instead of crashing when the buffers are allocated.
+	const maxArchiveValues = 1 << 31
+	if nchan := ds.Nchan(); nchan > 0 && N > maxArchiveValues/nchan {
+		return fmt.Errorf("cannot store %d samples of %d channels in memory, limit is %d samples", N, nchan, maxArchiveValues/nchan)
+	}
 	ds.archiveBlock.earliestTime = time.Now()
 	ds.archiveBlock.requestedSamples = N
 	ds.archiveBlock.segments = nil
